@@ -4,7 +4,7 @@
 cd /repo || exit 2
 checks=${@:-C02 C03 C04 C05 C06 C07 C08 C09 C10 C11 C12 C13 C14 C15 C16 C17 C18 C19 C20}
 bad=0
-for d in /verif/neutral/*.diff; do
+for d in /verif/neutral/${NEUTRAL_GLOB:-*}.diff; do
   git apply "$d" || { echo "cannot apply $d"; bad=1; continue; }
   # must still compile
   for p in $checks; do
